@@ -99,6 +99,28 @@ func evaluate(g *groups.G, level int, withHash bool) (out []expr, err error) {
 		z := dec(a)
 		z.p.Add(seeds[1].p, z.p)
 		emit(val{"AddInPlace2(B," + a.name + ")", nk, z.p})
+		var mk, mk2, zk *big.Int
+		if a.k != nil {
+			mk = md(new(big.Int).Sub(a.k, big.NewInt(1)))
+			mk2 = md(new(big.Int).Sub(big.NewInt(1), a.k))
+			zk = big.NewInt(0)
+		}
+		u := dec(a)
+		u.p.Sub(u.p, seeds[1].p)
+		emit(val{"SubInPlace(" + a.name + ",B)", mk, u.p})
+		v := dec(a)
+		v.p.Sub(seeds[1].p, v.p)
+		emit(val{"SubInPlace2(B," + a.name + ")", mk2, v.p})
+		w := dec(a)
+		w.p.Sub(w.p, w.p)
+		emit(val{"SubInPlace3(" + a.name + "," + a.name + ")", zk, w.p})
+		n := dec(a)
+		n.p.Neg(n.p)
+		var negk *big.Int
+		if a.k != nil {
+			negk = md(new(big.Int).Neg(a.k))
+		}
+		emit(val{"NegInPlace(" + a.name + ")", negk, n.p})
 	}
 	kadd := func(a, b *big.Int, sign int) *big.Int {
 		if a == nil || b == nil {
